@@ -4,6 +4,7 @@
 -/
 import Kingdon.Properties.C01
 import Kingdon.Lemmas.SourceSigns
+import Kingdon.Lemmas.SourceBlades
 namespace Kingdon.C01
 open Kingdon Kingdon.SrcEq
 
@@ -47,6 +48,25 @@ theorem source_swap_blades_total (b1 b2 t : List Nat) (hnd : t.Nodup) :
     Src.swap_blades b1 b2 t =
       .ok (Int.ofNat (swapBlades b1 b2 t).1, (swapBlades b1 b2 t).2.1, (swapBlades b1 b2 t).2.2) :=
   swap_blades_eq b1 b2 t hnd
+
+/-- **non-canonical spellings, in the source**: for a permuted spelling of a blade name the python `_blade2canon` returns
+    the canonical name and a swap count whose parity is the orientation of the spelling relative to that name -/
+theorem source_noncanonical_spelling_sign (c : Cfg) (h : c.admissible = true) (h14 : ∀ v ∈ c.vecs, v < 14)
+    (sp n : List Nat) (hn : n ∈ c.basis) (hp : sp.Perm n) :
+    ∃ canon swaps, Src.blade2canon (algOf c) (pyName sp) = .ok (pyName canon, Int.ofNat swaps) ∧
+      canon ∈ c.basis ∧ canon.Perm sp ∧
+      evalWord c.sigBits (c.wordOf sp) = SB.smul ((-1) ^ swaps) (evalWord c.sigBits (c.wordOf canon)) := by
+  obtain ⟨canon, swaps, h1, h2, h3, h4⟩ := blade2canon_perm c (Cfg.adm_of_admissible c h) h14 sp n hn hp
+  obtain ⟨canon', swaps', g1, g2, g3, g4⟩ := noncanonical_spelling_sign c h sp n hn hp
+  rw [h2] at g1
+  cases g1
+  exact ⟨canon, swaps, h1, g2, g3, g4⟩
+
+/-- spellings with a letter that is no generator of the algebra: the python returns the out-of-space marker, never raises -/
+theorem source_foreign_spelling (c : Cfg) (h : c.admissible = true) (h14 : ∀ v ∈ c.vecs, v < 14)
+    (sp : List Nat) (hsp : ∀ l ∈ sp, l < 14) (hnone : c.blade2canon sp = none) :
+    Src.blade2canon (algOf c) (pyName sp) = .ok ('e' :: Py.strOfInt (Int.ofNat (2 ^ c.d)), 0) := by
+  rw [blade2canon_eq c (Cfg.adm_of_admissible c h) h14 sp hsp, hnone]
 
 /-- non-vacuity: on 3DPGA with kingdon's named basis the translated python computes e31 * e0 -/
 example : Src.compute_sign (algOf (Cfg.custom [0, 1, 1, 1]
